@@ -173,6 +173,8 @@ func overlapWorks() []overlapWork {
 		}},
 		{"afm.Read", corpus.AFMs()[1].Data, 300, kind("afm")},
 		{"pfb decoding", corpus.PFBs()[0].Data, 40, kind("pfb")},
+		// segment headers that arrive in pieces (whatever a decoder keeps between two reads is its own)
+		{"pfb decoding (short segments, 3 bytes at a time)", []byte{0x80, 1, 3, 0, 0, 0, 'a', 'b', 'c', 0x80, 2, 2, 0, 0, 0, 0x12, 0xef, 0x80, 1, 1, 0, 0, 0, 'z', 0x80, 3}, 3, kind("pfb")},
 		{"name look-ups", nil, 0, func(_ io.Reader, yield func()) string {
 			var sb strings.Builder
 			for _, n := range []string{"A", "f_f_i.alt", "a62", "uni00410042", "dalethatafpatah"} {
@@ -282,7 +284,7 @@ func overlapFamily(preempt int, allHist bool, budget time.Duration) mc.Family {
 	var solo []string
 	return mc.Family{
 		Name: "overlapping-executions", Items: len(pairs), MaxDev: preempt, Budget: budget,
-		Rule: fmt.Sprintf("%d items = unordered pairs (incl. twice the same) of %d calls {2 raw programs, 2 eexec programs, type1.Read of a PFA and of a clear-text font, ReadCMap | Font.Write with default options / PFB / clear text, two fonts that differ at a hole of the standard encoding, a font with fractional outlines, Font.WritePDF, Metrics.Write, afm.Read, PFB decoding, 8 name look-ups} on distinct instances in 2 goroutines x histories {none, one eexec program, two eexec programs and a font, font + CMap + failing program, every writer and the remaining readers} (pairs of the first seven after every history, the others after three of them%s); inputs arrive in chunks through readers, output leaves through writers (every 6th/12th call), look-ups are separated by explicit points: each is a scheduling point before and after the data moves; every interleaving with <= %d preemptions (first thread free); oracle: both results equal the results of the same calls running alone, and no two accesses to a package-level variable of the library, a lock-guarded field or a map in a package with locks, one of them a write, are unordered by happens-before (vector clocks over every hooked access; hooks generated from the typed AST: build/gen-c18-sites.json); the sync shim's Pool is a deterministic LIFO (a legal sync.Pool); non-trivial = every execution (both threads run)", len(pairs), len(ws), map[bool]string{true: "; thorough: all five", false: ""}[allHist], preempt),
+		Rule: fmt.Sprintf("%d items = unordered pairs (incl. twice the same) of %d calls {2 raw programs, 2 eexec programs, type1.Read of a PFA and of a clear-text font, ReadCMap | Font.Write with default options / PFB / clear text, two fonts that differ at a hole of the standard encoding, a font with fractional outlines, Font.WritePDF, Metrics.Write, afm.Read, PFB decoding (a font in chunks of 40 bytes; short segments in chunks of 3 bytes, so that segment headers arrive in pieces), 8 name look-ups} on distinct instances in 2 goroutines x histories {none, one eexec program, two eexec programs and a font, font + CMap + failing program, every writer and the remaining readers} (pairs of the first seven after every history, the others after three of them%s); inputs arrive in chunks through readers, output leaves through writers (every 6th/12th call), look-ups are separated by explicit points: each is a scheduling point before and after the data moves; every interleaving with <= %d preemptions (first thread free); oracle: both results equal the results of the same calls running alone, and no two accesses to a package-level variable of the library, a lock-guarded field or a map in a package with locks, one of them a write, are unordered by happens-before (vector clocks over every hooked access; hooks generated from the typed AST: build/gen-c18-sites.json); the sync shim's Pool is a deterministic LIFO (a legal sync.Pool); non-trivial = every execution (both threads run)", len(pairs), len(ws), map[bool]string{true: "; thorough: all five", false: ""}[allHist], preempt),
 		Body: func(c *mc.Ctx, item int) mc.Verdict {
 			if solo == nil {
 				for _, w := range ws {
